@@ -2,8 +2,10 @@
    here for real matrices —  d/dt (r(t)' K(t)^-1 r(t)) = -(a' dK a)  for the constant data vector (zero mean) and for the
    GLS-demeaned residual r(t) = y - P b(t) (polynomial mean; envelope identity P' a = 0 from Proofs/GP.v instantiated at R),
    and Jacobi's formula (Lib/RMxDeriv.v) — and tied to the generated definitions: Gen.GenGP (GPNoise / GPNugget /
-   GPNoiseZeroMean / LogLik, MathComp matrices) for the value and Gen.GenAcq.LogLikGrad.grad (nat-indexed sums) for the gradient. *)
-From Coq Require Import Reals Lra Psatz.
+   GPNoiseZeroMean / LogLik, MathComp matrices) for the value and Gen.GenAcq.LogLikGrad.grad (nat-indexed sums) for the gradient.
+   The Cholesky factor is a contract (chol_ok: L L' = K, lower triangular, positive diagonal, near the hyperparameter value);
+   it gives 0 < det K, K symmetric and 2 * sum(log(diag L)) = log det K. *)
+From Coq Require Import Reals Lra Psatz FunctionalExtensionality.
 From Coquelicot Require Import Coquelicot.
 From mathcomp Require Import all_ssreflect all_fingroup all_algebra.
 From LV Require Import Lib.RBase Lib.MxAux Lib.RStruct Lib.MxDet Lib.RMxDeriv Gen.GenGP Gen.GenAcq Proofs.GP Proofs.GPGrad.
@@ -86,3 +88,247 @@ Proof.
   by rewrite addr0 !mulNmx mulmxN -!mulmxA Ea !mulmxA EaT.
 Qed.
 End GLS.
+
+(* ------------------------------------------------------------------ nat-indexed views and the generated gradient *)
+Section Views.
+Definition mxv m n (A : 'M[R]_(m,n)) (i j : nat) : R :=
+  match (insub i : option 'I_m), (insub j : option 'I_n) with Some i', Some j' => A i' j' | _, _ => 0 end.
+Definition cvv n (v : 'cV[R]_n) (i : nat) : R := mxv v i 0.
+Lemma mxvE m n (A : 'M[R]_(m,n)) (i : 'I_m) (j : 'I_n) : mxv A i j = A i j.
+Proof. by rewrite /mxv !valK. Qed.
+Lemma cvvE n (v : 'cV[R]_n) (i : 'I_n) : cvv v i = v i 0.
+Proof. exact: (mxvE v i 0). Qed.
+Lemma bigsum_ord n (f : nat -> R) : bigsum n f = \sum_(i < n) f i.
+Proof. elim: n => [|n IH]; first by rewrite big_ord0. by rewrite big_ord_recr /= IH. Qed.
+
+(* the generated per-hyperparameter gradient, in matrix form *)
+Lemma loglik_grad_matrix_form n nh (a : 'cV[R]_n) (dKt : nat -> 'M[R]_n) (Kinv : 'M[R]_n) (s : R) (h : nat) :
+  LogLikGrad.grad n nh (cvv a) (fun j l k => mxv (dKt k) j l) (mxv Kinv) s (fun _ => 1) h
+  = - s * (- (a^T *m dKt h *m a) 0 0 + \tr (Kinv *m dKt h)).
+Proof.
+  rewrite /LogLikGrad.grad.
+  have -> : bigsum n (fun j => bigsum n (fun l => (cvv a j * mxv (dKt h) j l * cvv a l)%Re)) = (a^T *m dKt h *m a) 0 0.
+    rewrite bigsum_ord. under eq_bigr => j _ do rewrite bigsum_ord.
+    rewrite [RHS]mxE. under [RHS]eq_bigr => l _ do rewrite mxE big_distrl /=.
+    rewrite exchange_big /=. apply: eq_bigr => l _. apply: eq_bigr => j _. by rewrite cvvE mxvE cvvE !mxE.
+  have -> : bigsum n (fun j => bigsum n (fun l => (mxv Kinv j l * mxv (dKt h) l j)%Re)) = \tr (Kinv *m dKt h).
+    rewrite bigsum_ord. apply: eq_bigr => j _. rewrite bigsum_ord mxE. apply: eq_bigr => l _. by rewrite !mxvE.
+  by rewrite -[RHS]mulr1.
+Qed.
+End Views.
+
+(* ------------------------------------------------------------------ Cholesky diagonal: 2 * sum(log(diag L)) = log det K *)
+Section CholLogDet.
+Variable n : nat.
+Definition chol_ok (L A : 'M[R]_n) : Prop := L *m L^T = A /\ is_trig_mx L /\ forall i, Rlt 0 (L i i).
+Definition sumlogdiag (L : 'M[R]_n) : R := \sum_i ln (L i i).
+
+Lemma ln_prod_pos (I : Type) (r : seq I) (f : I -> R) :
+  (forall i, Rlt 0 (f i)) -> Rlt 0 (\prod_(i <- r) f i) /\ ln (\prod_(i <- r) f i) = \sum_(i <- r) ln (f i).
+Proof.
+  move=> Hf; elim: r => [|i r [IH1 IH2]].
+  - rewrite !big_nil; split; [exact: Rlt_0_1|exact: ln_1].
+  - rewrite !big_cons; split; first exact: Rmult_lt_0_compat.
+    by rewrite -IH2; apply: ln_mult.
+Qed.
+Lemma chol_logdet (L A : 'M[R]_n) :
+  chol_ok L A -> Rlt 0 (\det A) /\ A^T = A /\ 2%:R * sumlogdiag L = ln (\det A).
+Proof.
+  case=> HA [Ht Hd]. have [Hp Hl] := ln_prod_pos (index_enum _) Hd.
+  have Ed : \det A = (\prod_i L i i) * (\prod_i L i i) by rewrite -HA det_mulmx det_tr det_trig.
+  split; first by rewrite Ed; apply: Rmult_lt_0_compat.
+  split; first by rewrite -HA trmx_mul trmxK.
+  by rewrite Ed ln_mult // /sumlogdiag -Hl -RaddE -mulr2n mulr_natl.
+Qed.
+End CholLogDet.
+
+(* ------------------------------------------------------------------ assembling the derivative of the value *)
+Section Assemble.
+Variables (n nh : nat) (chol : 'M[R]_n -> 'M[R]_n) (K : R -> 'M[R]_n) (x : R) (dKt : nat -> 'M[R]_n) (h : nat) (s : R).
+Hypothesis HK : mx_derive K x (dKt h).
+Hypothesis Hchol : locally x (fun t => chol_ok (chol (K t)) (K t)).
+
+Lemma chol_at_x : chol_ok (chol (K x)) (K x).
+Proof. exact: (locally_singleton _ _ Hchol). Qed.
+Lemma chol_unit : K x \in unitmx.
+Proof.
+  have [Hp _] := chol_logdet chol_at_x. rewrite unitmxE unitfE. apply/RneqP => E. rewrite E in Hp. exact: (Rlt_irrefl _ Hp).
+Qed.
+Lemma chol_sym : (K x)^T = K x.
+Proof. by have [_ [H _]] := chol_logdet chol_at_x. Qed.
+
+Lemma logdet_chol_derive :
+  is_derive (fun t => 2%:R * sumlogdiag (chol (K t))) x (\tr (invmx (K x) *m dKt h)).
+Proof.
+  have [Hp _] := chol_logdet chol_at_x.
+  apply: (@is_derive_eq_loc (fun t => ln (\det (K t)))); last exact: jacobi_logdet.
+  apply: locally_imp Hchol => t Ht. by have [_ [_ ->]] := chol_logdet Ht.
+Qed.
+
+Lemma loglik_assemble (Q : R -> R) (a : 'cV[R]_n) :
+  is_derive Q x (- (a^T *m dKt h *m a) 0 0) ->
+  is_derive (fun t => - s * (Q t + 2%:R * sumlogdiag (chol (K t)))) x
+            (LogLikGrad.grad n nh (cvv a) (fun j l k => mxv (dKt k) j l) (mxv (invmx (K x))) s (fun _ => 1) h).
+Proof.
+  move=> HQ. rewrite loglik_grad_matrix_form. apply: is_deriveZ. exact: (is_deriveD HQ logdet_chol_derive).
+Qed.
+End Assemble.
+
+(* ------------------------------------------------------------------ the generated value functions and their gradients *)
+Section Final.
+Variables (n p nh : nat) (chol : 'M[R]_n -> 'M[R]_n).
+Variables (noise y : 'cV[R]_n) (Pmx : 'M[R]_(n,p)) (s : R).
+Variables (x : R) (dKt : nat -> 'M[R]_n) (h : nat).
+
+(* per-point noise, polynomial mean (GPNoise): value as a function of one hyperparameter t through the kernel matrix *)
+Section Noise.
+Variable Kker : R -> 'M[R]_n.
+Let K t := GPNoise.kernel_matrix (Kker t) noise.
+Definition loglik_noise (t : R) : R :=
+  LogLik.log_likelihood_value chol (@sumlogdiag n) (K t)
+    (GPNoise.demeaned_y (Kker t) noise y Pmx) (GPNoise.K_inv_demeaned_y (Kker t) noise y Pmx) s.
+Hypothesis HK : mx_derive Kker x (dKt h).
+Hypothesis Hchol : locally x (fun t => chol_ok (chol (K t)) (K t)).
+Hypothesis PKPu : GPNoise.PT_K_inv_P (Kker x) noise Pmx \in unitmx.
+
+Lemma noise_K_derive : mx_derive K x (dKt h).
+Proof. apply: mx_derive_val (mx_deriveD HK (mx_derive_cst x (diag_mx noise^T))). by rewrite addr0. Qed.
+
+Theorem loglik_noise_grad :
+  is_derive loglik_noise x
+    (LogLikGrad.grad n nh (cvv (GPNoise.K_inv_demeaned_y (Kker x) noise y Pmx)) (fun j l k => mxv (dKt k) j l)
+                     (mxv (invmx (K x))) s (fun _ => 1) h).
+Proof.
+  apply: (loglik_assemble nh s noise_K_derive Hchol (Q := fun t => ((gls_r (K t) Pmx y)^T *m gls_a (K t) Pmx y) 0 0)).
+  exact: (quad_gls_derive y noise_K_derive (chol_unit Hchol) (chol_sym Hchol) PKPu).
+Qed.
+End Noise.
+
+(* nugget (auto-noise), polynomial mean (GPNugget): both the kernel part and the nugget may depend on t *)
+Section Nugget.
+Variables (Kker : R -> 'M[R]_n) (tik : R -> R) (dtik : R).
+Let K t := GPNugget.kernel_matrix (Kker t) (tik t).
+Definition loglik_nugget (t : R) : R :=
+  LogLik.log_likelihood_value chol (@sumlogdiag n) (K t)
+    (GPNugget.demeaned_y (Kker t) (tik t) y Pmx) (GPNugget.K_inv_demeaned_y (Kker t) (tik t) y Pmx) s.
+Variable dKk : 'M[R]_n.
+Hypothesis HK : mx_derive Kker x dKk.
+Hypothesis Htik : is_derive tik x dtik.
+Hypothesis HdK : dKt h = dKk + dtik%:M.
+Hypothesis Hchol : locally x (fun t => chol_ok (chol (K t)) (K t)).
+Hypothesis PKPu : GPNugget.PT_K_inv_P (Kker x) (tik x) Pmx \in unitmx.
+
+Lemma nugget_K_derive : mx_derive K x (dKt h).
+Proof.
+  rewrite HdK. apply: mx_deriveD => // i j.
+  apply: (@is_derive_eq (fun t => tik t *+ (i == j))); first by move=> t; rewrite !mxE.
+  rewrite mxE. case: (i == j); [exact: Htik | exact: is_derive_cst].
+Qed.
+
+Theorem loglik_nugget_grad :
+  is_derive loglik_nugget x
+    (LogLikGrad.grad n nh (cvv (GPNugget.K_inv_demeaned_y (Kker x) (tik x) y Pmx)) (fun j l k => mxv (dKt k) j l)
+                     (mxv (invmx (K x))) s (fun _ => 1) h).
+Proof.
+  apply: (loglik_assemble nh s nugget_K_derive Hchol (Q := fun t => ((gls_r (K t) Pmx y)^T *m gls_a (K t) Pmx y) 0 0)).
+  exact: (quad_gls_derive y nugget_K_derive (chol_unit Hchol) (chol_sym Hchol) PKPu).
+Qed.
+End Nugget.
+
+(* zero mean (GPNoiseZeroMean): r = y constant *)
+Section ZeroMean.
+Variable Kker : R -> 'M[R]_n.
+Let K t := GPNoiseZeroMean.kernel_matrix (Kker t) noise.
+Definition loglik_zero_mean (t : R) : R :=
+  LogLik.log_likelihood_value chol (@sumlogdiag n) (K t)
+    (GPNoiseZeroMean.demeaned_y y) (GPNoiseZeroMean.K_inv_demeaned_y (Kker t) noise y) s.
+Hypothesis HK : mx_derive Kker x (dKt h).
+Hypothesis Hchol : locally x (fun t => chol_ok (chol (K t)) (K t)).
+
+Theorem loglik_zero_mean_grad :
+  is_derive loglik_zero_mean x
+    (LogLikGrad.grad n nh (cvv (GPNoiseZeroMean.K_inv_demeaned_y (Kker x) noise y)) (fun j l k => mxv (dKt k) j l)
+                     (mxv (invmx (K x))) s (fun _ => 1) h).
+Proof.
+  have HKd : mx_derive K x (dKt h) := noise_K_derive HK.
+  apply: (loglik_assemble nh s HKd Hchol (Q := fun t => (y^T *m (invmx (K t) *m y)) 0 0)).
+  apply: (@is_derive_eq (fun t => (y^T *m invmx (K t) *m y) 0 0)); first by move=> t; rewrite mulmxA.
+  exact: (quad_const_derive y HKd (chol_unit Hchol) (chol_sym Hchol)).
+Qed.
+End ZeroMean.
+End Final.
+
+(* ------------------------------------------------------------------ the whole gradient vector: one partial derivative per hyperparameter *)
+Section GradientVector.
+Variables (n p nh : nat) (chol : 'M[R]_n -> 'M[R]_n) (noise y : 'cV[R]_n) (Pmx : 'M[R]_(n,p)) (s : R).
+Variable Kfun : (nat -> R) -> 'M[R]_n.          (* kernel matrix as a function of the hyperparameter vector *)
+Variables (theta : nat -> R) (dKt : nat -> 'M[R]_n).
+Definition upd (th : nat -> R) (h : nat) (t : R) : nat -> R := fun k => if k == h then t else th k.
+Lemma upd_id th h : upd th h (th h) = th.
+Proof. apply: functional_extensionality => k. by rewrite /upd; case: eqP => [->|]. Qed.
+
+Theorem loglik_noise_gradient_vector h :
+  mx_derive (fun t => Kfun (upd theta h t)) (theta h) (dKt h) ->
+  locally (theta h) (fun t => let K := GPNoise.kernel_matrix (Kfun (upd theta h t)) noise in chol_ok (chol K) K) ->
+  GPNoise.PT_K_inv_P (Kfun theta) noise Pmx \in unitmx ->
+  is_derive (fun t => loglik_noise chol noise y Pmx s (fun u => Kfun (upd theta h u)) t) (theta h)
+    (LogLikGrad.grad n nh (cvv (GPNoise.K_inv_demeaned_y (Kfun theta) noise y Pmx)) (fun j l k => mxv (dKt k) j l)
+                     (mxv (invmx (GPNoise.kernel_matrix (Kfun theta) noise))) s (fun _ => 1) h).
+Proof.
+  move=> HK Hchol PKPu.
+  have := @loglik_noise_grad n p nh chol noise y Pmx s (theta h) dKt h (fun u => Kfun (upd theta h u)) HK Hchol.
+  rewrite upd_id. exact.
+Qed.
+End GradientVector.
+
+(* ------------------------------------------------------------------ log parameterisation (log_domain=True) *)
+Section LogDomain.
+Variables (n p nh : nat) (chol : 'M[R]_n -> 'M[R]_n) (noise y : 'cV[R]_n) (Pmx : 'M[R]_(n,p)) (s : R).
+Variables (al : R) (dKt : nat -> 'M[R]_n) (h : nat) (Kker : R -> 'M[R]_n).
+Let K t := GPNoise.kernel_matrix (Kker t) noise.
+Theorem loglik_noise_grad_log_domain :
+  mx_derive Kker (exp al) (dKt h) -> locally (exp al) (fun t => chol_ok (chol (K t)) (K t)) ->
+  GPNoise.PT_K_inv_P (Kker (exp al)) noise Pmx \in unitmx ->
+  is_derive (fun u => loglik_noise chol noise y Pmx s Kker (exp u)) al
+    (LogLikGrad.grad n nh (cvv (GPNoise.K_inv_demeaned_y (Kker (exp al)) noise y Pmx)) (fun j l k => mxv (dKt k) j l)
+                     (mxv (invmx (K (exp al)))) s (fun _ => exp al) h).
+Proof.
+  move=> HK Hchol PKPu.
+  exact: (loglik_grad_log_domain (loglik_noise chol noise y Pmx s Kker) _ al n nh _ _ _ s h
+            (loglik_noise_grad nh y s HK Hchol PKPu) erefl).
+Qed.
+End LogDomain.
+
+(* ------------------------------------------------------------------ the hypotheses are satisfiable: two observations, constant mean,
+   kernel matrix t * I (signal-variance hyperparameter, far-apart points), no noise, at t = 1 *)
+Section Instance.
+Definition chol_scalar (A : 'M[R]_2) : 'M[R]_2 := (sqrt (A 0 0))%:M.
+Let Kk (t : R) : 'M[R]_2 := t%:M.
+Let P1 : 'M[R]_(2,1) := const_mx 1.
+Let noise0 : 'cV[R]_2 := 0.
+Lemma inst_K t : GPNoise.kernel_matrix (Kk t) noise0 = t%:M.
+Proof. by rewrite /GPNoise.kernel_matrix /noise0 trmx0 linear0 addr0. Qed.
+Lemma inst_derive : mx_derive Kk 1 (1%:M).
+Proof.
+  move=> i j. apply: (@is_derive_eq (fun t => t *+ (i == j))); first by move=> t; rewrite !mxE.
+  rewrite mxE. case: (i == j); [exact: (@is_derive_id R_AbsRing) | exact: is_derive_cst].
+Qed.
+Lemma inst_chol : locally (1 : R) (fun t => chol_ok (chol_scalar (GPNoise.kernel_matrix (Kk t) noise0)) (GPNoise.kernel_matrix (Kk t) noise0)).
+Proof.
+  have H : locally (1 : R) (fun t => Rlt 0 t) := open_gt 0 1 Rlt_0_1.
+  apply: locally_imp H => t Ht. rewrite inst_K /chol_scalar mxE eqxx mulr1n. split; last split.
+  - rewrite tr_scalar_mx -scalar_mxM. have -> // : sqrt t * sqrt t = t. by apply: sqrt_sqrt; apply: Rlt_le.
+  - exact: scalar_mx_is_trig.
+  - move=> i. rewrite mxE eqxx mulr1n. exact: sqrt_lt_R0.
+Qed.
+Lemma inst_PKP : GPNoise.PT_K_inv_P (Kk 1) noise0 P1 \in unitmx.
+Proof.
+  rewrite /GPNoise.PT_K_inv_P /GPNoise.K_inv_P /GPNoise.P /cho_solve inst_K invmx1 mul1mx unitmxE det_mx11 unitfE.
+  by rewrite mxE !big_ord_recl big_ord0 !mxE !mulr1 addr0 -(natrD _ 1 1) Num.Theory.pnatr_eq0.
+Qed.
+Theorem loglik_full_instance (y : 'cV[R]_2) (s : R) :
+  is_derive (loglik_noise chol_scalar noise0 y P1 s Kk) 1
+    (LogLikGrad.grad 2 1 (cvv (GPNoise.K_inv_demeaned_y (Kk 1) noise0 y P1)) (fun j l k => mxv (1%:M : 'M[R]_2) j l)
+                     (mxv (invmx (GPNoise.kernel_matrix (Kk 1) noise0))) s (fun _ => 1) 0).
+Proof. exact: (@loglik_noise_grad 2 1 1 chol_scalar noise0 y P1 s 1 (fun _ => 1%:M) 0%N Kk inst_derive inst_chol inst_PKP). Qed.
+End Instance.
